@@ -954,6 +954,11 @@ impl World {
                 self.msgs.insert(*out, s);
                 Obs::Literal
             }
+            Op::Imported { out, text, .. } => {
+                let s = self.arena.str(text);
+                self.msgs.insert(*out, s);
+                Obs::Literal
+            }
             Op::NewVerifier { v, spec } => {
                 let km = match self.keys.get(spec.key) {
                     Some(k) => k.clone(),
